@@ -14,10 +14,32 @@ impl Field {
 }
 
 #[verifier::external_body]
-pub struct CompInfo { _p: core::marker::PhantomData<()> }
+pub struct CompRest { _p: core::marker::PhantomData<()> }
+// the two flags is_packed reads directly; everything else of CompInfo is opaque
+pub struct CompInfo { pub packed_attr: bool, pub has_own_virtual_method: bool, pub rest: CompRest }
 impl CompInfo {
     pub uninterp spec fn s_fields(&self) -> Seq<Field>;
+    // layouts handed to the callback of each_known_field_layout, in order
+    pub uninterp spec fn s_known_layouts(&self, ctx: &BindgenContext) -> Seq<Layout>;
     #[verifier::external_body] pub fn fields(&self) -> (r: &[Field]) ensures r@ == self.s_fields() { unimplemented!() }
+}
+
+// rule R16: `self.each_known_field_layout(ctx, |layout| BODY)` -> cursor loop running BODY once per
+// field whose layout is known, in field order (what each_known_field_layout does)
+#[verifier::external_body]
+pub struct KnownLayoutCursor { _p: core::marker::PhantomData<()> }
+impl KnownLayoutCursor {
+    pub uninterp spec fn all(&self) -> Seq<Layout>;
+    pub uninterp spec fn pos(&self) -> int;
+    #[verifier::external_body]
+    pub fn new(c: &CompInfo, ctx: &BindgenContext) -> (r: KnownLayoutCursor) ensures r.all() == c.s_known_layouts(ctx), r.pos() == 0 { unimplemented!() }
+    #[verifier::external_body]
+    pub fn has_next(&self) -> (r: bool) ensures r == (self.pos() < self.all().len()), 0 <= self.pos() <= self.all().len() { unimplemented!() }
+    #[verifier::external_body]
+    pub fn next_item(&mut self) -> (r: Layout)
+        requires old(self).pos() < old(self).all().len(),
+        ensures r == old(self).all()[old(self).pos()], final(self).pos() == old(self).pos() + 1, final(self).all() == old(self).all(),
+    { unimplemented!() }
 }
 
 // `for x in slice` (rule R13): yields references to the elements in order
